@@ -48,7 +48,7 @@ Qed.
 (* ------------------------------------------------------------ the invariant *)
 Definition req_ok (h : list event) (s : st) := forall q, In q (reqs s) ->
   q_id q <= next s
-  /\ (exists e, In e h /\ e_op e = Authorize (q_client q) (q_uri q) (q_scopes q) (q_nonce q) (q_chal q)
+  /\ (exists e, In e h /\ e_op e = Authorize (q_client q) (q_uri q) (q_scopes q) (q_nonce q) (q_chal q) (q_extra q)
                 /\ e_out e = OAuthz (Some (q_id q)))
   /\ (q_done q = true -> exists e, In e h /\ e_op e = Login (q_id q) (q_sub q) (q_auth q) /\ e_out e = OLogin true).
 
@@ -155,17 +155,13 @@ Ltac oldrt := match goal with
   | Hold : forall e, In e ?h -> In e (?h ++ [?ev]), B1 : In ?e ?h, B2 : e_out ?e = OTokens ?t0 /\ _ |- _ =>
       exists e, t0; split; [apply Hold; exact B1 | exact B2] end.
 
-Lemma inv_step h s r o s' x :
-  Inv h s -> trans H cf s o s' x -> Inv (h ++ [mkev s r o x s']) s'.
+Lemma inv_same h s r o x :
+  Inv h s -> (match x with OAuthz None | OLogin false | OCbErr | OCbFail | OErr _ _ => True | _ => False end) ->
+  Inv (h ++ [mkev s r o x s]) s.
 Proof.
-  intros [Ireq Icodes Ifun Iused Irts Iissued Irot] Ht.
-  set (ev := mkev s r o x s').
+  intros [Ireq Icodes Ifun Iused Irts Iissued Irot] Hx.
+  set (ev := mkev s r o x s).
   assert (Hold : forall e, In e h -> In e (h ++ [ev])) by (intros; apply in_snoc; auto).
-  assert (Hnew : In ev (h ++ [ev])) by (apply in_snoc; auto).
-  destruct Ht as [o x Hx | cl uri scopes nonce chal | n sub stamp q Hq | n q Hq Hd
-                 | pl f cr cd uri ver q c Hcr Hfc Hp Hu Hch Hpub | pl cr n scopes t c sc Hrt Hfc Hr Hfl Hp Hn
-                 | cl].
-  - (* nothing happened *)
     constructor.
     + intros q Hin. destruct (Ireq q Hin) as [A [[e [B1 B2]] C]]. split; [exact A|]. split; [old|].
       intro Hd. destruct (C Hd) as [e' [C1 C2]]. old.
@@ -178,6 +174,22 @@ Proof.
       cbn in Ho. subst x. contradiction.
     + intros e pl0 cr n sc Hin Ho Hk. apply in_snoc in Hin as [Hin | ->]; [eauto|].
       cbn in Hk. destruct x; try discriminate. contradiction.
+Qed.
+
+Lemma inv_step h s r o s' x :
+  Inv h s -> trans H cf s o s' x -> Inv (h ++ [mkev s r o x s']) s'.
+Proof.
+  intros [Ireq Icodes Ifun Iused Irts Iissued Irot] Ht.
+  set (ev := mkev s r o x s').
+  assert (Hold : forall e, In e h -> In e (h ++ [ev])) by (intros; apply in_snoc; auto).
+  assert (Hnew : In ev (h ++ [ev])) by (apply in_snoc; auto).
+  destruct Ht as [o x Hx Hns | pl0 cr0 n0 sc0 t0 Hrt0 Hn0 | cl uri scopes nonce chal ax | n sub stamp q Hq | n q Hq Hd
+                 | pl f cr cd uri ver q c Hcr Hfc Hp Hu Hch Hpub | pl cr n scopes t c sc Hrt Hfc Hr Hfl Hp Hn
+                 | cl].
+  - (* nothing happened *)
+    apply inv_same; [constructor; assumption | exact Hx].
+  - (* invalid_scope: nothing happened *)
+    apply inv_same; [constructor; assumption | exact I].
   - (* authorize *)
     constructor; unfold req_ok, codes_ok, codes_fun, used_ok, rts_ok, issued_ok, rotated_ok, find_req, find_rt;
       cbn [reqs codes rtoks next ncode].
